@@ -24,6 +24,7 @@ import (
 	bsctypes "github.com/teleport-network/teleport/x/xibc/clients/light-clients/bsc/types"
 	ethclient "github.com/teleport-network/teleport/x/xibc/clients/light-clients/eth/types"
 	tsstypes "github.com/teleport-network/teleport/x/xibc/clients/tss-client/types"
+	clientmodule "github.com/teleport-network/teleport/x/xibc/core/client"
 	clienttypes "github.com/teleport-network/teleport/x/xibc/core/client/types"
 	"github.com/teleport-network/teleport/x/xibc/core/host"
 	xibctypes "github.com/teleport-network/teleport/x/xibc/types"
@@ -297,6 +298,34 @@ func Run(r *ev.Run, tier string) (evals, nontrivial int64) {
 			nontrivial++
 		}
 		report("TSS clients, relayers with several chains, chain name", RoundTrip(h.C, ctx, dst, "tss+relayers"), nil)
+	}
+	// --- relayer registry written by governance: every register-relayer proposal shape that passes the proposal's stateless
+	// validation goes through the real proposal handler (lists of equal and unequal length, repeated chains, empty lists)
+	{
+		ctx := h.Ctx(now)
+		k.SetChainName(ctx, "teleport_9000-10")
+		handler := clientmodule.NewClientProposalHandler(k)
+		shapes := []struct {
+			chains, addrs []string
+		}{
+			{[]string{"bsc"}, []string{"0xa"}}, {[]string{"bsc", "eth"}, []string{"0xa", "0xb"}}, {[]string{"bsc"}, []string{"0xa", "0xb"}},
+			{[]string{"bsc", "eth"}, []string{"0xa"}}, {[]string{"bsc", "bsc"}, []string{"0xa", "0xb"}}, {nil, nil}, {[]string{"bsc"}, []string{""}},
+			{[]string{"bsc", "eth", "tm"}, []string{"0xa", "0xb", "0xc", "0xd"}},
+		}
+		accepted := 0
+		for i, sh := range shapes {
+			p := clienttypes.NewRegisterRelayerProposal("t", "d", world.NewAccount(fmt.Sprintf("gov-relayer-%d", i)).Acc.String(), sh.chains, sh.addrs)
+			if p.ValidateBasic() != nil {
+				continue
+			}
+			cctx, write := ctx.CacheContext()
+			if err := handler(cctx, p); err == nil {
+				write()
+				accepted++
+			}
+		}
+		nontrivial += int64(accepted)
+		report(fmt.Sprintf("relayer registry written by %d accepted register-relayer proposals of %d shapes", accepted, len(shapes)), RoundTrip(h.C, ctx, dst, "relayers/proposals"), nil)
 	}
 	// --- TSS clients that went through governance: one upgraded to another TSS account, one obtained by toggling a tendermint client
 	{
